@@ -98,10 +98,9 @@ class Delta:
                     for path, op_codes in result['_iterable_opcodes'].items():
                         _iterable_opcodes[path] = []
                         for op_code in op_codes:
+                            # the builtin json module writes a named tuple as a list, orjson as a dict
                             _iterable_opcodes[path].append(
-                                Opcode(
-                                    **op_code
-                                )
+                                Opcode(*op_code) if isinstance(op_code, (list, tuple)) else Opcode(**op_code)
                             )
                     result['_iterable_opcodes'] = _iterable_opcodes
                 return result
